@@ -111,7 +111,7 @@ var floors = map[string][]string{
 	"C07": {"attempt:position-set", "attempt:stored-position", "server-id>=2^31", "set-rejected", "stored-position-after-stream", "failed-before-dump:dump-write-fail", "failed-before-dump:set-close"},
 	"C08": {"mode:observe", "mode:scribble"},
 	"C15": {"stream:id-rebound-after-restart", "stream:id-rebound-to-name-differing-in-case-only", "stream:id-reannounced-with-other-column-count", "stream:hundreds-of-table-ids"},
-	"C17": {"gate:structured", "gate:random-valid", "gate:random-invalid", "gate:truncated-or-extended-events", "stream:inject:empty", "stream:inject:truncated-by-1", "stream:inject:random", "stream:inject:first-13", "stream:inject:first-16", "stream:inject:gv-header-only", "stream:inject:gv-random-body"},
+	"C17": {"gate:structured", "gate:random-valid", "gate:random-invalid", "gate:truncated-or-extended-events", "stream:inject:empty", "stream:inject:truncated-by-1", "stream:inject:random", "stream:inject:first-13", "stream:inject:first-16", "stream:inject:gv-header-only", "stream:inject:gv-random-body", "gate:zero-width-rows-events", "gate:buffers-around-2^24"},
 	"C10": {"e2e:values-compared"},
 	"C11": {"e2e:values-compared"},
 	"C12": {"e2e:values-compared", "tz=", "time.Local-set-by-the-program-after-start"},
